@@ -1,2 +1,3 @@
 import Props.C01
 import Props.C05
+import Props.C07
